@@ -518,7 +518,48 @@ var variants = [][]string{
 	{"gcc", "-O1", "-g", "-no-pie", "-Wl,-Ttext-segment=0x600000"},
 	{"clang", "-O1", "-g", "-fPIE", "-pie"},
 	{"gcc", "-O1", "-g", "-no-pie", "-Wl,-z,noseparate-code"},
+	// gold with a separate read-only segment packs the segments in the file: the code starts in
+	// the middle of a file page right behind the read-only data
+	{"gcc", "-O1", "-g", "-pie", "-fPIE", "-fuse-ld=gold", "-Wl,--rosegment"},
+	{"gcc", "-O1", "-g", "-no-pie", "-fuse-ld=gold", "-Wl,--rosegment"},
+	{"gcc", "-O1", "-g", "-pie", "-fPIE", "-fuse-ld=gold"},
+	// a shared object laid out by a linker script the way lld does by default: a read-only
+	// segment (headers, dynamic symbols, constants) first, the code packed right behind it in the
+	// same file page, one page further in memory
+	{"gcc", "-O1", "-g", "-shared", "-fPIC", "-nostdlib", "-Wl,-T,PACKED_LD"},
 }
+
+const packedLD = `
+PHDRS
+{
+  ro   PT_LOAD FILEHDR PHDRS FLAGS(4);
+  text PT_LOAD FLAGS(5);
+  data PT_LOAD FLAGS(6);
+  dyn  PT_DYNAMIC FLAGS(6);
+}
+SECTIONS
+{
+  . = SIZEOF_HEADERS;
+  .hash     : { *(.hash) } :ro
+  .gnu.hash : { *(.gnu.hash) } :ro
+  .dynsym   : { *(.dynsym) } :ro
+  .dynstr   : { *(.dynstr) } :ro
+  .rela.dyn : { *(.rela.dyn) } :ro
+  .rela.plt : { *(.rela.plt) } :ro
+  .rodata   : { *(.rodata*) } :ro
+  . = . + 0x1000;
+  .plt      : { *(.plt) *(.plt.*) } :text
+  .text     : { *(.text*) } :text
+  . = . + 0x1000;
+  .dynamic  : { *(.dynamic) } :data :dyn
+  .got      : { *(.got) *(.got.plt) } :data
+  .data     : { *(.data*) } :data
+  .bss      : { *(.bss*) *(COMMON) } :data
+  /DISCARD/ : { *(.comment) *(.note*) *(.eh_frame*) }
+}
+`
+
+var _ = packedLD
 
 func runReal(c *harness.Ctx) harness.Result {
 	v := variants[c.Index%len(variants)]
@@ -526,6 +567,13 @@ func runReal(c *harness.Ctx) harness.Result {
 	bin := filepath.Join(c.Tmp, "t.bin")
 	os.WriteFile(src, []byte(csrc), 0o644)
 	args := append(append([]string{}, v[1:]...), "-o", bin, src)
+	for i, a := range args {
+		if strings.Contains(a, "PACKED_LD") {
+			ld := filepath.Join(c.Tmp, "packed.ld")
+			os.WriteFile(ld, []byte(packedLD), 0o644)
+			args[i] = strings.Replace(a, "PACKED_LD", ld, 1)
+		}
+	}
 	if out, err := exec.Command(v[0], args...).CombinedOutput(); err != nil {
 		return harness.Result{Verdict: harness.Inconclusive, Detail: fmt.Sprintf("%v failed: %v %s", v, err, out)}
 	}
@@ -676,13 +724,13 @@ func init() {
 	harness.Register(&harness.Check{
 		ID:          "C13",
 		Level:       "exploration",
-		Rule:        "part synth: ELF64 files (header + program headers) generated under linker constraints (1-4 PT_LOAD sorted by vaddr, off = vaddr mod page, non-zero first vaddr, bss, neighbours packed onto one file page or on separate pages, 4 KiB or 2 MiB alignment, ET_DYN/ET_EXEC), loader simulation at a random page-aligned bias (also biases that are not multiples of p_align, and negative ones for objects with a non-zero image base), segments optionally padded to a page boundary, the executable mapping whole, split in two, or with its tail (from any page on) merged with the mapping of the following segment as adjacent same-file mappings are reported; addresses at segment start, end-1, interior; result must be address - bias, an error only counts in the unambiguous class, a wrong address always counts; further addresses through the same object file. part protocol: an interposed llvm-symbolizer echoes the address it is sent: it must be the link-time address; alternately an interposed GNU addr2line (echoing its question) plus an interposed nm table (one long-named symbol per 64 bytes) at high and at low biases: the reported name must be the one either tool gives for the link-time address. part nm: generated sorted symbol tables (duplicates, zero sizes, adjacent, text/data types, junk lines) behind an interposed nm, probed at start-1, start, start+1, end-1, end of every symbol and outside the table. part real: the same C program built with gcc/clang as -pie, -no-pie, noseparate-code, max-page-size=2MiB, -Ttext-segment; loader-simulated from its real headers at three biases; ObjAddr exact and SourceLine (llvm-symbolizer and nm) names the function whose symbol-table range contains the address; and a profile with samples at those runtime addresses run through the real driver (pprof -symbolize=local -proto) must come back with those function names, also when the object is mapped twice at different biases in one profile. non-trivial = every case; distinct = layout + bias",
+		Rule:        "part synth: ELF64 files (header + program headers) generated under linker constraints (1-4 PT_LOAD sorted by vaddr, off = vaddr mod page, non-zero first vaddr, bss, neighbours packed onto one file page or on separate pages, 4 KiB or 2 MiB alignment, ET_DYN/ET_EXEC), loader simulation at a random page-aligned bias (also biases that are not multiples of p_align, and negative ones for objects with a non-zero image base), segments optionally padded to a page boundary, the executable mapping whole, split in two, or with its tail (from any page on) merged with the mapping of the following segment as adjacent same-file mappings are reported; addresses at segment start, end-1, interior; result must be address - bias, an error only counts in the unambiguous class, a wrong address always counts; further addresses through the same object file. part protocol: an interposed llvm-symbolizer echoes the address it is sent: it must be the link-time address; alternately an interposed GNU addr2line (echoing its question) plus an interposed nm table (one long-named symbol per 64 bytes) at high and at low biases: the reported name must be the one either tool gives for the link-time address. part nm: generated sorted symbol tables (duplicates, zero sizes, adjacent, text/data types, junk lines) behind an interposed nm, probed at start-1, start, start+1, end-1, end of every symbol and outside the table. part real: the same C program built with gcc/clang as -pie, -no-pie, noseparate-code, max-page-size=2MiB, -Ttext-segment, with gold (with and without --rosegment), and as a shared object laid out by a linker script like lld's default (read-only segment first, code packed behind it in the same file page); loader-simulated from its real headers at three biases; ObjAddr exact and SourceLine (llvm-symbolizer and nm) names the function whose symbol-table range contains the address; and a profile with samples at those runtime addresses run through the real driver (pprof -symbolize=local -proto) must come back with those function names, also when the object is mapped twice at different biases in one profile. non-trivial = every case; distinct = layout + bias",
 		Assumptions: []string{"page size 4 KiB", "unambiguous class = the address lies in the file-backed part of exactly one PT_LOAD and no other segment has file content on the same page, mapping not split, and (merged mappings) the mapping holds at least one full page of the executable segment; pprof attributes a merged mapping holding less than a page of a segment to the next segment by design and answers with an error", "layouts are those the generator and the installed compilers produce"},
 		Parts: []harness.Part{
 			{Name: "synth", Quick: 6000, Thor: 300000, Run: runSynth},
 			{Name: "protocol", Quick: 300, Thor: 6000, Run: runProtocol},
 			{Name: "nm", Quick: 600, Thor: 20000, Run: runNM},
-			{Name: "real", Quick: 7, Thor: 28, Run: runReal},
+			{Name: "real", Quick: 11, Thor: 44, Run: runReal},
 		},
 		MinNonTrivial: func(string) int { return 500 },
 	})
